@@ -51,6 +51,7 @@ type HarnessFile struct {
 	Hooks   []HookSpec
 	Substs  []SubstSpec
 	Replace map[string]string
+	Also    map[string][]string // property -> checks of this file that also decide it (empty: all)
 	Shards  map[string]int
 	Assume  []string
 	Outside []string
@@ -115,6 +116,14 @@ func parseHarness(path string) (*HarnessFile, error) {
 				return nil, fmt.Errorf("%s: bad replace directive %q", path, l)
 			}
 			h.Replace[f[0]] = f[1]
+		case "also":
+			f := strings.Fields(rest)
+			if len(f) >= 1 {
+				if h.Also == nil {
+					h.Also = map[string][]string{}
+				}
+				h.Also[strings.ToUpper(f[0])] = append(h.Also[strings.ToUpper(f[0])], f[1:]...)
+			}
 		case "shard":
 			f := strings.Fields(rest)
 			if len(f) != 2 {
@@ -152,6 +161,7 @@ func parseHarness(path string) (*HarnessFile, error) {
 
 // group = all harness files of one property that target the same package directory
 type group struct {
+	prop    string
 	dir     string
 	pkgName string
 	files   []*HarnessFile
@@ -221,11 +231,10 @@ func harnessFiles(prop string) ([]string, error) {
 				}
 				continue
 			}
+			// "//verif:also <Cxx> [Func ...]": one property per line, optionally only the named checks
 			if fs := strings.Fields(line); len(fs) >= 2 && fs[0] == "//verif:also" {
-				for _, p := range fs[1:] {
-					if strings.EqualFold(p, prop) && !slicesContains(m, f) {
-						m = append(m, f)
-					}
+				if strings.EqualFold(fs[1], prop) && !slicesContains(m, f) {
+					m = append(m, f)
 				}
 			}
 		}
@@ -314,6 +323,20 @@ func (g *group) load(tier string) error {
 			continue
 		}
 		if strings.HasPrefix(n, "VerifQuick") && thorough {
+			continue
+		}
+		// a file borrowed from another property may lend only some of its checks
+		skip := false
+		for _, hf := range g.files {
+			if "zz_verif_"+filepath.Base(hf.Path) != filepath.Base(pos.Filename) {
+				continue
+			}
+			own := strings.HasPrefix(strings.ToLower(filepath.Base(hf.Path)), strings.ToLower(g.prop)+"_")
+			if names := hf.Also[strings.ToUpper(g.prop)]; !own && len(names) > 0 && !slicesContains(names, n) {
+				skip = true
+			}
+		}
+		if skip {
 			continue
 		}
 		g.funcs = append(g.funcs, n)
@@ -499,7 +522,7 @@ func RunProperty(opt Options) int {
 		hfiles = append(hfiles, h)
 		g := groups[h.Dir]
 		if g == nil {
-			g = &group{dir: h.Dir}
+			g = &group{dir: h.Dir, prop: opt.Property}
 			groups[h.Dir] = g
 			order = append(order, h.Dir)
 		}
